@@ -943,7 +943,8 @@ class Interp:
                 for c1, v in self.ev(item.context_expr, c, out):
                     c1 = c1.emit(("with_enter", norm(item.context_expr))) if getattr(self.policy, "emit_with", False) else c1
                     if item.optional_vars is not None:
-                        ncs.extend(self.assign(item.optional_vars, Sym(("with", norm(item.context_expr))), c1, out))
+                        bound = v if isinstance(v, (ObjV, Const, ListV, DictV)) else Sym(("with", norm(item.context_expr)))
+                        ncs.extend(self.assign(item.optional_vars, bound, c1, out))
                     else:
                         ncs.append(c1)
             cs = ncs
@@ -1017,6 +1018,17 @@ class Interp:
                 b = bases[0][1]
                 nb = NodeV(b.cls, {**b.fields, target.attr: newv}, b.path)
                 return self.store_back(target.value, nb, cfg)
+        if isinstance(target, ast.Subscript):
+            # nested container: rebuild the outer container with the new inner value
+            sub = Out()
+            bases = self.ev(target.value, cfg, sub)
+            idxs = self.ev(target.slice, cfg, sub)
+            if len(bases) == 1 and len(idxs) == 1 and isinstance(bases[0][1], DictV):
+                outer = bases[0][1].set(idxs[0][1], newv)
+                c2 = self.store_back(target.value, outer, cfg)
+                if outer.origin is not None:
+                    c2 = c2.hset(outer.origin, DictV(outer.items))
+                return c2
         return cfg
 
     # ------------------------------------------------------------------
@@ -1465,6 +1477,8 @@ class Interp:
             return False
         if l == r and isinstance(l, (ListV, DictV)):
             return True
+        if isinstance(l, (ListV, DictV)) and isinstance(r, (ListV, DictV)) and _concrete(l) and _concrete(r):
+            return _plain(l) == _plain(r)
         return None
 
     def member(self, l, r):
@@ -1761,6 +1775,10 @@ class Interp:
             if isinstance(v, NodeV):
                 return [(cfg, NodeV(v.cls, {**v.fields, "$copy": TRUE}, v.path))]
             return [(cfg, v)]
+        if fname in ("any", "all") and len(args) == 1 and isinstance(args[0], ListV):
+            truths = [self.static_truth(x, cfg) for x in args[0].items]
+            if all(t is not None for t in truths):
+                return [(cfg, Const(any(truths) if fname == "any" else all(truths)))]
         if fname == "bool" and len(args) == 1:
             t = self.static_truth(args[0], cfg)
             if t is not None:
@@ -1816,6 +1834,8 @@ class Interp:
                 c = c.hset(org, DictV(newv.items))
             if recv_name is not None and recv_name in cfg.env:
                 c = c.set(recv_name, newv)
+            elif isinstance(node.func, ast.Attribute) and isinstance(node.func.value, ast.Subscript):
+                c = self.store_back(node.func.value, newv, c)
             elif recv_attr is not None:
                 sub = Out()
                 bases = self.ev(recv_attr.value, cfg, sub)
@@ -1956,6 +1976,27 @@ class Interp:
                 if d:
                     todo.append(d.split(".")[-1])
         return False
+
+
+def _concrete(v):
+    if isinstance(v, Const):
+        return True
+    if isinstance(v, ListV):
+        return all(_concrete(x) for x in v.items)
+    if isinstance(v, DictV):
+        return all(_concrete(k) and _concrete(x) for k, x in v.items)
+    return False
+
+
+def _plain(v):
+    if isinstance(v, Const):
+        return v.v
+    if isinstance(v, ListV):
+        items = [_plain(x) for x in v.items]
+        return set(map(repr, items)) if v.kind == "set" else items
+    if isinstance(v, DictV):
+        return {repr(_plain(k)): _plain(x) for k, x in v.items}
+    return v
 
 
 def _ast_isinstance(clsname, basename):
